@@ -164,7 +164,7 @@ class Renderer:
         """Go string literal for bytes s"""
         if isinstance(s, str):
             s = s.encode()
-        raw_ok = b"`" not in s and b"\r" not in s and all(b >= 0x20 or b in (9, 10) for b in s)
+        raw_ok = b"`" not in s and all(b >= 0x20 or b in (9, 10, 13) for b in s)      # a raw string keeps a carriage return (strutil.Unquote, unlike Go source)
         try:
             s.decode("utf-8")
             utf = True
@@ -452,7 +452,7 @@ BYTES = [("10b", 10), ("10B", 10), ("1KB", 1000), ("1kb", 1000), ("1KiB", 1024),
          ("1.5KB", 1500), ("2gb", 2 * 10**9), ("2GiB", 2 * 2**30), ("1tb", 10**12), ("3mi", 3 * 2**20)]
 NUMS = [("5", 5.0), ("5.0", 5.0), ("0.5", 0.5), ("400", 400.0), ("1e3", 1000.0), ("0", 0.0), ("3.25", 3.25), ("100", 100.0), ("1.5e-3", 0.0015), ("42", 42.0)]
 STRS = [b"a", b"", b"error", b"x y", b'q"uote', b"back\\slash", b"tab\there", b"nl\nx", "é世".encode(), b"a.b", b"{{.x}}", b"100%", b"`tick`", b"\xff\xfe",
-        b"foo|bar", b"# not a comment", b"/path/to", b"k=v"]
+        b"foo|bar", b"# not a comment", b"/path/to", b"k=v", b"cr\rlf\r\nend", b"\r"]
 REGEXES = [b"a.*", b"^err", b"(foo|bar)", b"[0-9]+", b"\\d+", b"x?y+", b"", b".", b"(?i)warn", b"a{2,3}", b"[^ ]+"]
 BAD_REGEXES = [b"(", b"[a", b"a**", b"(?P<n", b"\\"]
 NAMED_RE = [(b"(?P<method>\\w+) (?P<path>\\S+)", [(1, "method"), (2, "path")]), (b"(\\d+) (?P<code>\\d+)", [(2, "code")]), (b"plain", []),
